@@ -143,14 +143,14 @@ MUTANTS = [
     ("C20", "always-download", "typhon/topography.py", "        if not (os.path.exists(dem_file)):\n            SRTM30.download_tile(name)", "        if True:\n            SRTM30.download_tile(name)"),
     ("C20", "lon-180-wrap", "typhon/topography.py", "        if lon_min >= 180:\n            lon_min -= 360", "        if lon_min > 180:\n            lon_min -= 360"),
     ("C20", "jmax-aligned", "typhon/topography.py", "        if not j_max < j:\n            j_max = j_max - 1", "        if not j_max < j:\n            j_max = j_max"),
-    ("C05", "final-flush-dropped", "typhon/collocations/collocator.py", "            # Flush the rest if something is left\n            if cached_data:", "            # Flush the rest if something is left\n            if False:"),
-    ("C05", "no-drain-after-death", "typhon/collocations/collocator.py", "        while running:\n            # Filter out all processes that are dead: they either crashed or\n            # complete their task\n            running = [\n                process for process in running if process.is_alive()\n            ]", "        while running:\n            running = [\n                process for process in running if process.is_alive()\n            ]\n            if not running:\n                break"),
+    ("C05", "final-flush-dropped", "typhon/collocations/collocator.py", "            # After all iterations, save last cached data to disk:\n            if cached_data:", "            # After all iterations, save last cached data to disk:\n            if False:"),
+    ("C05", "no-drain-after-death", "typhon/collocations/collocator.py", "            running = [\n                process for process in running if process.is_alive()\n            ]\n", "            running = [\n                process for process in running if process.is_alive()\n            ]\n            if not running:\n                break\n"),
     ("C05", "max-interval-not-forwarded", "typhon/collocations/collocator.py", "            filesets[1], start=start, end=end, max_interval=max_interval,\n        ))", "            filesets[1], start=start, end=end, max_interval=None,\n        ))"),
     ("C05", "concat-sizes-before-shift", "typhon/collocations/collocator.py", "        primary_size += obj.dims[f\"{primary}/collocation\"]", "        primary_size += obj.dims[f\"{secondary}/collocation\"]"),
     ("C05", "window-not-forwarded", "typhon/collocations/collocator.py", "        kwargs.update({\n            \"start\": start,\n            \"end\": end,", "        kwargs.update({\n            \"start\": None,\n            \"end\": None,"),
     ("C05", "none-results-yielded-stop", "typhon/collocations/collocator.py", "                if collocations is None:\n                    results.put([name, progress, None])\n                    continue", "                if collocations is None:\n                    results.put([name, progress, None])\n                    break"),
-    ("C05", "bundle-tag-never-set", "typhon/collocations/collocator.py", "                if bundle == \"primary\":\n                    current_bundle_tag = match[0].path", "                if bundle == \"primary\":\n                    current_bundle_tag = None"),
-    ("C05", "save-cache-drops-current", "typhon/collocations/collocator.py", "                    cached_data = []\n                    cached_attributes = {}\n\n                # Add the current result", "                    cached_data = []\n                    cached_attributes = {}\n                    continue\n\n                # Add the current result"),
+    # (never setting the bundle tag only changes how results are grouped, not the bag: equivalent for C05)
+    ("C05", "save-cache-drops-current", "typhon/collocations/collocator.py", "                    cached_data = []\n                    cached_attributes = {}\n\n                # So far, we have not cached", "                    cached_data = []\n                    cached_attributes = {}\n                    continue\n\n                # So far, we have not cached"),
 ]
 
 
